@@ -293,7 +293,7 @@ func TestQuota(t *testing.T) {
 				mu.Lock()
 				rec["relayed"] = relayed
 				mu.Unlock()
-				rec["upcount"] = myUp.Load() - up0     // what the server counted for this user during the session
+				rec["upcount"] = myUp.Load() - up0 // what the server counted for this user during the session
 				rec["downcount"] = myDown.Load() - down0
 				out.Emit(rec)
 				cmux.Close()
